@@ -5,6 +5,11 @@
 //!   map-desc M which src dst kind d             -> ok d' | err e                         kind = f | m | r
 //!   map-member M kind src dst supers owner n d  -> ok ((fail?) (mapped?) (ref?))         kind = f | m
 //!   map-mref M src dst supers class n d         -> ok (class n d) | err e
+//!   map-seq M src dst supers (q…)               -> ok (a…) | err e     ONE remapper_a + ONE remapper_b instance answer
+//!                                                  the whole list in order; a = (ok <answer of the single op>) | err
+//!       q = (class a|b c) | (desc a|b f|m|r d) | (member f|m owner n d) | (mref class n d)
+//!   oracle-seq-history-independent M src dst supers (q…)  -> ok pass | ok (fail <index>) | ok out-of-domain
+//!       the answers of one instance to the sequence = the answers of a fresh instance to every single question
 //!   oracle-mapclass-spec, oracle-desc-shape, oracle-desc-rejects, oracle-member-resolution (= oracle-member-nearest
 //!   = oracle-member-nearest-full, aliases kept for the recorded finding line),
 //!   oracle-fallback, oracle-roundtrip-class, oracle-roundtrip-desc, oracle-roundtrip-member
@@ -305,6 +310,255 @@ fn pre_rev(sup: &[(String, Vec<String>)], fuel: usize, o: &str, out: &mut Vec<St
 	if let Some((_, ss)) = sup.iter().find(|(k, _)| k == o) { for s in ss.iter().rev() { pre_rev(sup, fuel - 1, s, out); } }
 }
 
+// ------------------------------------------------------------------------------------------------ sequences of questions
+
+/// a member declaration usable by `remapper_b(src, dst)`, in the source namespace
+#[derive(Clone)]
+struct Decl { cls: String, kind: &'static str, nm: String, d: Vec<u32> }
+
+/// a member question of a sequence, generator side
+#[derive(Clone, PartialEq)]
+struct MQ { kind: &'static str, owner: String, nm: String, d: Vec<u32> }
+
+/// pre-order with the path (owner … direct sub type) that led to every class
+fn pre_paths(sup: &[(String, Vec<String>)], fuel: usize, o: &str, path: &mut Vec<String>, out: &mut Vec<(String, Vec<String>)>) {
+	if fuel == 0 { return; }
+	out.push((o.to_owned(), path.clone()));
+	if let Some((_, ss)) = sup.iter().find(|(k, _)| k == o) {
+		path.push(o.to_owned());
+		for s in ss { pre_paths(sup, fuel - 1, s, path, out); }
+		path.pop();
+	}
+}
+
+/// what the generator expects of a member question: `Some((declaring class, path to it))` or `None` (all of the pre-order is walked)
+fn expect_hit(sup: &[(String, Vec<String>)], decls: &[Decl], q: &MQ) -> (Option<(String, Vec<String>)>, Vec<String>) {
+	let mut order = Vec::new();
+	pre_paths(sup, sup.len() + 1, &q.owner, &mut Vec::new(), &mut order);
+	let hit = order.iter().find(|(c, _)| decls.iter().any(|x| x.cls == *c && x.kind == q.kind && x.nm == q.nm && x.d == q.d)).cloned();
+	(hit, order.into_iter().map(|(c, _)| c).collect())
+}
+
+enum SQ { Member(MQ), Other(Sexp) }
+
+/// Sequences of 2..8 questions for ONE remapper instance (`map-seq` + `oracle-seq-history-independent`), aimed at state
+/// kept between questions: the same owner asked repeatedly with hits and misses in both orders, hits that are found
+/// *through* a class without a mapping after a miss walked through that class, different members through one class,
+/// the same member key through different owners, the same name with another descriptor, fields and methods mixed,
+/// identical questions repeated, with class / descriptor / method-ref questions in between.
+fn gen_seqs(r: &mut Rng, tier: Tier, out: &mut Out) {
+	let rounds = if tier == Tier::Thorough { 5000 } else { 250 };
+	const LIB: &[&str] = &["lib/U0", "lib/U1", "java/lang/Object", "un/mapped", "lib/U2"];
+	const NOWHERE: &[&str] = &["toString", "equals", "size", "zz"];
+	for _ in 0..rounds {
+		let case = gen_case(r, out, true);
+		let (g, n) = (&case.g, case.n);
+		let m = g.to_sexp();
+		let (src, dst) = if r.chance(1, 40) { (n + r.below(2), r.below(n)) } else {
+			let src = if r.chance(3, 4) { r.range(1, n - 1) } else { 0 };
+			let dst = if r.chance(1, 12) { src } else { (src + 1 + r.below(n - 1)) % n };
+			(src, dst)
+		};
+		let (s_i, d_i) = (src.min(n - 1), dst.min(n - 1));
+		let t0s = a_tab(g, 0, s_i);
+		let tsd = a_tab(g, s_i, d_i);
+		let mut src_names: Vec<String> = Vec::new();
+		for c in &g.classes { if let Some(x) = &c.names[s_i] { if !src_names.contains(x) { src_names.push(x.clone()); } } }
+		let mut decls: Vec<Decl> = Vec::new();
+		for (ci, c) in g.classes.iter().enumerate() {
+			for (kind, ms, dsx) in [("f", &c.fields, &case.fdescs[ci]), ("m", &c.methods, &case.mdescs[ci])] {
+				for (mi, mem) in ms.iter().enumerate() {
+					if let (Some(cs), Some(_), Some(nm), Some(_)) = (&c.names[s_i], &c.names[d_i], &mem.names[s_i], &mem.names[d_i]) {
+						decls.push(Decl { cls: cs.clone(), kind, nm: nm.clone(), d: print_desc(&rename(&dsx[mi], &t0s)) });
+					}
+				}
+			}
+		}
+		// the graph: the classes of the mappings plus two to four library classes nobody maps, dense, acyclic
+		let mut nodes = src_names.clone();
+		for u in &LIB[..r.range(2, 4)] { if !nodes.iter().any(|x| x == u) { nodes.push((*u).to_owned()); } }
+		let dense = !r.chance(1, 5);
+		let sup = gen_supers(r, &nodes, out, dense);
+		let sups = supers_sexp(&sup);
+		let mapped = |c: &str| tsd.contains_key(c);
+
+		// every (owner, declaration) with the declaration's answer found through a class without a mapping
+		// (the owner itself or a class between the owner and the declaring class), and all other inherited ones
+		let mut through: Vec<(String, usize, String)> = Vec::new(); // owner, decl, the unmapped class on the path
+		let mut inherited: Vec<(String, usize)> = Vec::new();
+		for o in &nodes {
+			for (di, x) in decls.iter().enumerate() {
+				let q = MQ { kind: x.kind, owner: o.clone(), nm: x.nm.clone(), d: x.d.clone() };
+				if let (Some((c, path)), _) = expect_hit(&sup, &decls, &q) {
+					if c == *o { continue; }
+					inherited.push((o.clone(), di));
+					if let Some(u) = path.iter().find(|p| !mapped(p)) { through.push((o.clone(), di, u.clone())); }
+				}
+			}
+		}
+		out.stats.hit(if !through.is_empty() { "seq-case:has-hit-through-unmapped" } else if !inherited.is_empty() { "seq-case:inherited-only" } else { "seq-case:no-inherited-member" });
+
+		for _ in 0..3 {
+			let any_desc = |r: &mut Rng, kind: &str| print_desc(&if kind == "f" { gen_field_desc(r, &src_names) } else { gen_method_desc(r, &src_names) });
+			let hit_q = |o: &str, di: usize| MQ { kind: decls[di].kind, owner: o.to_owned(), nm: decls[di].nm.clone(), d: decls[di].d.clone() };
+			// a question expected to miss, related to `base` (a hit) in one of several ways
+			let miss_q = |r: &mut Rng, owner: &str, base: Option<&MQ>| -> MQ {
+				let kind: &'static str = if r.chance(1, 2) { "f" } else { "m" };
+				match (r.below(6), base) {
+					// the hit's name with another descriptor
+					(0 | 1, Some(b)) => MQ { kind: b.kind, owner: owner.to_owned(), nm: b.nm.clone(), d: any_desc(r, b.kind) },
+					// the hit's key asked as the other kind of member
+					(2, Some(b)) => MQ { kind: if b.kind == "f" { "m" } else { "f" }, owner: owner.to_owned(), nm: b.nm.clone(), d: b.d.clone() },
+					// some declaration of the mappings (mostly not reachable from this owner)
+					(3, _) if !decls.is_empty() => { let x = r.pick(&decls); MQ { kind: x.kind, owner: owner.to_owned(), nm: x.nm.clone(), d: x.d.clone() } }
+					// a member nobody maps
+					_ => MQ { kind, owner: owner.to_owned(), nm: (*r.pick(NOWHERE)).to_owned(), d: if r.chance(1, 2) { cps(if kind == "f" { "I" } else { "()V" }) } else { any_desc(r, kind) } },
+				}
+			};
+			let mut seq: Vec<SQ> = Vec::new();
+			let template = r.below(8);
+			let focus: Option<(String, usize, String)> = if !through.is_empty() && r.chance(5, 6) { Some(r.pick(&through).clone()) }
+				else if !inherited.is_empty() { let (o, di) = r.pick(&inherited).clone(); Some((o.clone(), di, o)) } else { None };
+			match (template, &focus) {
+				(_, None) => {
+					out.stats.hit("seq-template:random-members");
+					for _ in 0..r.range(2, 4) { let o = r.pick(&nodes).clone(); seq.push(SQ::Member(miss_q(r, &o, None))); }
+				}
+				(0 | 1, Some((o, di, u))) => {
+					// miss (through the owner or directly through the unmapped class) then the hit
+					out.stats.hit("seq-template:miss-then-hit");
+					let h = hit_q(o, *di);
+					let who = if r.chance(1, 2) { o.clone() } else { u.clone() };
+					seq.push(SQ::Member(miss_q(r, &who, Some(&h))));
+					if r.chance(1, 3) { seq.push(SQ::Member(miss_q(r, o, Some(&h)))); }
+					seq.push(SQ::Member(h));
+				}
+				(2, Some((o, di, _))) => {
+					out.stats.hit("seq-template:hit-then-miss");
+					let h = hit_q(o, *di);
+					seq.push(SQ::Member(h.clone()));
+					seq.push(SQ::Member(miss_q(r, o, Some(&h))));
+				}
+				(3, Some((o, di, u))) => {
+					out.stats.hit("seq-template:hit-miss-hit");
+					let h = hit_q(o, *di);
+					seq.push(SQ::Member(h.clone()));
+					let who = if r.chance(1, 2) { o.clone() } else { u.clone() };
+					seq.push(SQ::Member(miss_q(r, &who, Some(&h))));
+					seq.push(SQ::Member(h));
+				}
+				(4 | 5, Some((o, di, u))) => {
+					// different members through one class (the unmapped one or the owner), hits first or a miss first
+					out.stats.hit("seq-template:different-members-same-class");
+					let who = if r.chance(1, 2) { o.clone() } else { u.clone() };
+					let mut reach: Vec<usize> = inherited.iter().filter(|(o2, _)| *o2 == who).map(|(_, d2)| *d2).collect();
+					if reach.is_empty() { reach.push(*di); }
+					r.shuffle(&mut reach);
+					reach.truncate(r.range(2, 3));
+					let owner_of = |d2: usize| if inherited.iter().any(|(o2, d3)| *o2 == who && *d3 == d2) { who.clone() } else { o.clone() };
+					if template == 5 { let h = hit_q(&owner_of(reach[0]), reach[0]); seq.push(SQ::Member(miss_q(r, &who, Some(&h)))); }
+					for d2 in &reach { seq.push(SQ::Member(hit_q(&owner_of(*d2), *d2))); }
+					if template == 4 && r.chance(1, 2) { let h = hit_q(o, *di); seq.push(SQ::Member(miss_q(r, &who, Some(&h)))); seq.push(SQ::Member(h)); }
+				}
+				(6, Some((o, di, _))) => {
+					// the same member key through different owners (shadowing: the answers may differ per owner)
+					out.stats.hit("seq-template:same-key-different-owners");
+					let h = hit_q(o, *di);
+					let mut owners: Vec<String> = inherited.iter().filter(|(_, d2)| decls[*d2].kind == h.kind && decls[*d2].nm == h.nm && decls[*d2].d == h.d).map(|(o2, _)| o2.clone()).collect();
+					owners.push(decls[*di].cls.clone());
+					owners.push(r.pick(&nodes).clone());
+					r.shuffle(&mut owners);
+					owners.truncate(r.range(2, 4));
+					for o2 in owners { seq.push(SQ::Member(MQ { owner: o2, ..h.clone() })); }
+					seq.push(SQ::Member(h));
+				}
+				(_, Some((o, di, u))) => {
+					out.stats.hit("seq-template:random-mix");
+					let h = hit_q(o, *di);
+					for _ in 0..r.range(2, 5) {
+						let who = match r.below(4) { 0 => u.clone(), 1 => r.pick(&nodes).clone(), _ => o.clone() };
+						seq.push(SQ::Member(if r.chance(1, 2) { MQ { owner: who, ..h.clone() } } else { miss_q(r, &who, Some(&h)) }));
+					}
+				}
+			}
+			// a question asked before is asked again
+			if r.chance(1, 3) {
+				let i = r.below(seq.len());
+				if let SQ::Member(q) = &seq[i] { let q = q.clone(); let at = r.range(i + 1, seq.len()); seq.insert(at, SQ::Member(q)); }
+			}
+			// class / descriptor / method-ref questions in between
+			while seq.len() < 8 && r.chance(2, 5) {
+				let which = Sexp::tag(if r.chance(1, 2) { "a" } else { "b" });
+				let extra = match r.below(4) {
+					0 => {
+						let c = if r.chance(1, 4) { let mut o = Vec::new(); print_ty(&Ty::Arr(Box::new(gen_ty(r, &src_names, 1))), &mut o); to_string(&o) } else { r.pick(&nodes).clone() };
+						Sexp::list(vec![Sexp::tag("class"), which, Sexp::str(&c)])
+					}
+					1 | 2 => {
+						let kind = *r.pick(&["f", "m", "r"]);
+						let mut d = any_desc(r, if kind == "m" { "m" } else { "f" });
+						if r.chance(1, 5) { d = mutate(r, &d); }
+						Sexp::list(vec![Sexp::tag("desc"), which, Sexp::tag(kind), Sexp::cps(&d)])
+					}
+					_ => {
+						let base: Vec<&MQ> = seq.iter().filter_map(|q| if let SQ::Member(q) = q { if q.kind == "m" { Some(q) } else { None } } else { None }).collect();
+						let (cls, nm, d) = if !base.is_empty() && r.chance(3, 4) { let q = *r.pick(&base); (q.owner.clone(), q.nm.clone(), q.d.clone()) }
+							else { (r.pick(&nodes).clone(), (*r.pick(NOWHERE)).to_owned(), any_desc(r, "m")) };
+						let cls = if r.chance(1, 5) { format!("[L{cls};") } else { cls };
+						Sexp::list(vec![Sexp::tag("mref"), Sexp::str(&cls), Sexp::str(&nm), Sexp::cps(&d)])
+					}
+				};
+				let at = r.below(seq.len() + 1);
+				seq.insert(at, SQ::Other(extra));
+			}
+			seq.truncate(8);
+
+			// distribution, classified after the fact from what the generator expects of every member question
+			let members: Vec<(usize, &MQ)> = seq.iter().enumerate().filter_map(|(i, q)| if let SQ::Member(q) = q { Some((i, q)) } else { None }).collect();
+			let exp: Vec<(Option<(String, Vec<String>)>, Vec<String>)> = members.iter().map(|(_, q)| expect_hit(&sup, &decls, q)).collect();
+			out.stats.hit(&format!("seq-len:{}", seq.len()));
+			out.stats.hit(&format!("seq-member-questions:{}", members.len()));
+			out.stats.hit(&format!("seq-other-questions:{}", seq.len() - members.len()));
+			let (mut mh_same, mut hm_same, mut mh_through, mut rep, mut diff_members_unmapped, mut same_name_other_desc, mut same_key_other_owner, mut shadowed) = (false, false, false, false, false, false, false, false);
+			for i in 0..members.len() {
+				let (qi, ei) = (members[i].1, &exp[i]);
+				if let Some((c, _)) = &ei.0 {
+					if ei.1.iter().filter(|c2| decls.iter().any(|x| x.cls == **c2 && x.kind == qi.kind && x.nm == qi.nm && x.d == qi.d)).any(|c2| c2 != c) { shadowed = true; }
+				}
+				for j in i + 1..members.len() {
+					let (qj, ej) = (members[j].1, &exp[j]);
+					if qi == qj { rep = true; }
+					if qi.owner == qj.owner && ei.0.is_none() && ej.0.is_some() { mh_same = true; }
+					if qi.owner == qj.owner && ei.0.is_some() && ej.0.is_none() { hm_same = true; }
+					// the trigger of a negative cache: a miss walked through an unmapped class, a later hit is found through it
+					if ei.0.is_none() {
+						if let Some((_, path)) = &ej.0 { if path.iter().any(|p| !mapped(p) && ei.1.contains(p)) { mh_through = true; } }
+					}
+					if let (Some((_, pi)), Some((_, pj))) = (&ei.0, &ej.0) {
+						if (qi.nm != qj.nm || qi.d != qj.d || qi.kind != qj.kind) && pi.iter().any(|p| !mapped(p) && pj.contains(p)) { diff_members_unmapped = true; }
+					}
+					if qi.owner == qj.owner && qi.kind == qj.kind && qi.nm == qj.nm && qi.d != qj.d { same_name_other_desc = true; }
+					if qi.owner != qj.owner && qi.kind == qj.kind && qi.nm == qj.nm && qi.d == qj.d { same_key_other_owner = true; }
+				}
+			}
+			for (f, k) in [(mh_same, "seq:miss-then-hit-same-owner"), (hm_same, "seq:hit-then-miss-same-owner"), (mh_through, "seq:miss-then-hit-through-same-unmapped-class"),
+				(rep, "seq:identical-question-repeated"), (diff_members_unmapped, "seq:different-members-through-same-unmapped-class"),
+				(same_name_other_desc, "seq:same-owner-and-name-other-descriptor"), (same_key_other_owner, "seq:same-key-other-owner"), (shadowed, "seq:hit-is-shadowing"),
+				(members.iter().any(|(_, q)| q.kind == "f") && members.iter().any(|(_, q)| q.kind == "m"), "seq:fields-and-methods"),
+				(exp.iter().any(|e| e.0.is_some()) && exp.iter().any(|e| e.0.is_none()), "seq:hits-and-misses")] {
+				if f { out.stats.hit(k); }
+			}
+			let qs = Sexp::list(seq.iter().map(|q| match q {
+				SQ::Member(q) => Sexp::list(vec![Sexp::tag("member"), Sexp::tag(q.kind), Sexp::str(&q.owner), Sexp::str(&q.nm), Sexp::cps(&q.d)]),
+				SQ::Other(s) => s.clone(),
+			}).collect());
+			let args = [m.clone(), Sexp::nat(src), Sexp::nat(dst), sups.clone(), qs];
+			out.op("map-seq", &args);
+			out.op("oracle-seq-history-independent", &args);
+		}
+	}
+}
+
 fn gen(r: &mut Rng, tier: Tier, out: &mut Out) {
 	let rounds = if tier == Tier::Thorough { 12000 } else { 320 };
 	for round in 0..rounds {
@@ -528,6 +782,9 @@ fn gen(r: &mut Rng, tier: Tier, out: &mut Out) {
 		}
 	}
 	out.stats.add("exhaustive-desc-strings", (0..=max_len).map(|l| alpha.len().pow(l as u32) as u64).sum());
+
+	// --- sequences of questions to one remapper instance (history independence)
+	gen_seqs(r, tier, out);
 }
 
 // ------------------------------------------------------------------------------------------------ executor
@@ -618,6 +875,94 @@ fn class_pairs(rows: &[Row], s: usize, d: usize) -> Vec<(JavaString, JavaString)
 fn inj_on<K: PartialEq>(pairs: &[(K, K)], img: &K, c: &K) -> bool { pairs.iter().all(|p| p.1 != *img || p.0 == *c) }
 fn valid_name(n: &JavaStr) -> bool { !n.is_empty() && !n.contains(';') }
 
+
+// ------------------------------------------------------------------------------------------------ sequences
+
+/// one question of `map-seq`
+enum Q {
+	Class { a: bool, c: JavaString },
+	Desc { a: bool, kind: String, d: JavaString },
+	Member { kind: String, owner: JavaString, n: JavaString, d: JavaString },
+	Mref { cls: JavaString, n: JavaString, d: JavaString },
+}
+
+fn which_from(s: &Sexp) -> R<bool> {
+	match s.as_atom()? { "a" => Ok(true), "b" => Ok(false), o => Err(format!("which {o}")) }
+}
+
+fn query_from(s: &Sexp) -> R<Q> {
+	let l = s.as_list()?;
+	let Some(head) = l.first() else { return Err("empty query".into()) };
+	match (head.as_atom()?, &l[1..]) {
+		("class", [w, c]) => Ok(Q::Class { a: which_from(w)?, c: c.as_jstring()? }),
+		("desc", [w, kind, d]) => {
+			let kind = kind.as_atom()?;
+			if !["f", "m", "r"].contains(&kind) { return Err("desc kind".into()); }
+			Ok(Q::Desc { a: which_from(w)?, kind: kind.to_owned(), d: d.as_jstring()? })
+		}
+		("member", [kind, owner, n, d]) => {
+			let kind = kind.as_atom()?;
+			if kind != "f" && kind != "m" { return Err("member kind".into()); }
+			Ok(Q::Member { kind: kind.to_owned(), owner: owner.as_jstring()?, n: n.as_jstring()?, d: d.as_jstring()? })
+		}
+		("mref", [cls, n, d]) => Ok(Q::Mref { cls: cls.as_jstring()?, n: n.as_jstring()?, d: d.as_jstring()? }),
+		_ => Err("query".into()),
+	}
+}
+
+fn q_ok(x: Sexp) -> Sexp { Sexp::list(vec![Sexp::tag("ok"), x]) }
+fn q_err() -> Sexp { Sexp::tag("err") }
+
+/// `map_class_fail`, `map_class`, `map_class_any` (the answer of `map-class`)
+fn class_answer<A: ARemapper + ?Sized>(a: &A, c: &JavaStr) -> Option<Sexp> {
+	let any = unsafe { ClassName::from_inner_unchecked(c.to_owned()) };
+	let (Ok(f), Ok(mc)) = (a.map_class_fail(ocs(c)), a.map_class(ocs(c))) else { return None };
+	let any = a.map_class_any(&any).ok();
+	Some(Sexp::list(vec![
+		Sexp::opt(f.as_ref(), |x| Sexp::jstr(x.as_inner())), Sexp::jstr(mc.as_inner()),
+		Sexp::opt(any.as_ref(), |x| Sexp::jstr(x.as_inner()))]))
+}
+
+/// `map_*_fail`, `map_*`, `map_*_ref` (the answer of `map-member`)
+fn member_answer<B: BRemapper>(b: &B, kind: &str, owner: &JavaStr, nm: &JavaStr, d: &JavaStr) -> Option<Sexp> {
+	let Ok(f) = q_fail(b, kind, owner, nm, d) else { return None };
+	let g = q_map(b, kind, owner, nm, d).ok();
+	let h = q_ref(b, kind, owner, nm, d).ok();
+	Some(Sexp::list(vec![Sexp::opt(f.as_ref(), key_sexp), Sexp::opt(g.as_ref(), key_sexp), Sexp::opt(h.as_ref(), ref_sexp)]))
+}
+
+/// one question put to the given instances (`a` = the `remapper_a` result, `b` = the `remapper_b` result)
+fn ask<A: ARemapper, B: BRemapper>(a: &A, b: &B, q: &Q) -> Sexp {
+	match q {
+		Q::Class { a: via_a, c } => (if *via_a { class_answer(a, c) } else { class_answer(b, c) }).map(q_ok).unwrap_or_else(q_err),
+		Q::Desc { a: via_a, kind, d } => (if *via_a { q_desc(a, kind, d) } else { q_desc(b, kind, d) }).map(|x| q_ok(Sexp::jstr(&x))).unwrap_or_else(|_| q_err()),
+		Q::Member { kind, owner, n, d } => member_answer(b, kind, owner, n, d).map(q_ok).unwrap_or_else(q_err),
+		Q::Mref { cls, n, d } => {
+			let mref = MethodRef { class: unsafe { ClassName::from_inner_unchecked(cls.clone()) }, name: mname(n.clone()), desc: mdesc(d.clone()) };
+			match b.map_method_ref(&mref) {
+				Ok(x) => q_ok(ref_sexp(&(x.class.into_inner(), x.name.into_inner(), x.desc.into_inner()))),
+				Err(_) => q_err(),
+			}
+		}
+	}
+}
+
+/// builds ONE `remapper_a` and ONE `remapper_b` and hands them to `$body` (as `$a`, `$b`); `None` when a construction fails
+macro_rules! with_instance {
+	($m:expr, $src:expr, $dst:expr, $prov:expr, |$a:ident, $b:ident| $body:expr) => {
+		match $m.remapper_a($src, $dst) {
+			Err(_) => None,
+			Ok($a) => {
+				if $prov.is_empty() {
+					match $m.remapper_b($src, $dst, NoSuperClassProvider::new()) { Ok($b) => Some($body), Err(_) => None }
+				} else {
+					match $m.remapper_b($src, $dst, $prov) { Ok($b) => Some($body), Err(_) => None }
+				}
+			}
+		}
+	};
+}
+
 fn exec(op: &str, args: &[Sexp]) -> Ans {
 	macro_rules! tr { ($e:expr) => { match $e { Ok(x) => x, Err(e) => return Ans::BadOp(format!("{e}")) } } }
 	macro_rules! ns { ($N:ident, $e:expr) => { Namespace::<$N>::new(tr!($e.as_nat())) } }
@@ -682,6 +1027,29 @@ fn exec(op: &str, args: &[Sexp]) -> Ans {
 					Ok(x) => Ans::Ok(ref_sexp(&(x.class.into_inner(), x.name.into_inner(), x.desc.into_inner()))),
 					Err(_) => Ans::err(),
 				}
+			}
+			("map-seq", [src, dst, sup, qs]) => {
+				let (prov, _) = tr!(supers_from(sup));
+				let qs: Vec<Q> = tr!(tr!(qs.as_list()).iter().map(query_from).collect::<R<_>>());
+				let (Ok(src), Ok(dst)) = (ns!(N, src), ns!(N, dst)) else { return Ans::err() };
+				// one instance of each remapper answers the whole list, in order
+				match with_instance!(m, src, dst, &prov, |a, b| qs.iter().map(|q| ask(&a, &b, q)).collect::<Vec<Sexp>>()) {
+					Some(answers) => Ans::Ok(Sexp::list(answers)),
+					None => Ans::err(),
+				}
+			}
+			("oracle-seq-history-independent", [src, dst, sup, qs]) => {
+				let (prov, _) = tr!(supers_from(sup));
+				let qs: Vec<Q> = tr!(tr!(qs.as_list()).iter().map(query_from).collect::<R<_>>());
+				let (Ok(src), Ok(dst)) = (ns!(N, src), ns!(N, dst)) else { return Ans::out_of_domain() };
+				// seq_pointwise / seq_history_independent on the implementation: the answers of one instance to the sequence …
+				let Some(on_one) = with_instance!(m, src, dst, &prov, |a, b| qs.iter().map(|q| ask(&a, &b, q)).collect::<Vec<Sexp>>()) else { return Ans::out_of_domain() };
+				// … against a fresh pair of instances for every single question
+				for (i, q) in qs.iter().enumerate() {
+					let Some(fresh) = with_instance!(m, src, dst, &prov, |a, b| ask(&a, &b, q)) else { return Ans::fail("fresh-instance-err") };
+					if fresh != on_one[i] { return Ans::fail(&i.to_string()); }
+				}
+				Ans::pass()
 			}
 			("oracle-mapclass-spec", [src, dst, c]) => {
 				let c = tr!(c.as_jstring());
